@@ -77,6 +77,15 @@ def serial(na: int, nb: int, reps: int, mx: int, stop: int) -> bool:
         avals = [0] * na
     BM.own_timestep = 0 if hx.P.get('own_timestep') else None
     params = {"a": (iter(list(avals)) if hx.P.get('oneshot') else avals), "b": list(range(nb)), "stop": stop}
+    sib = hx.P.get('sibling')
+    if sib:
+        # the caller's dict also served to build ANOTHER parameter list, which was edited afterwards (a sweep variant):
+        # the grid that is run is still the one that was given
+        variant = B.ParameterList(params)
+        handed = B.ParameterList(params) if sib == 'plist' else params
+        variant.add_parameter("junk", [1, 2, 3])
+        variant.remove_parameter("b")
+        params = handed
     res = B.batch_run(BM, params, collectors=sel, processes=1, max_timesteps=mx, repetitions=reps)
     runs = [(a, b) for _ in range(reps) for a in avals for b in range(nb)]
     steps = stop if stop < mx else mx        # at timestep `stop` the stopper (priority 5) completes before collectors run
@@ -228,7 +237,8 @@ def obligations(tier):
     return [
         X("serial", serial, parts=[{"collectors": c, "R": R, "T": T} for c in ("c", ["c", "d"], None)] +
           [{"collectors": "c", "R": 1, "T": 2, "repeated": True}, {"collectors": "c", "R": 2, "T": 1, "oneshot": True},
-           {"collectors": "c", "R": 1, "T": 2, "own_timestep": True}],
+           {"collectors": "c", "R": 1, "T": 2, "own_timestep": True},
+           {"collectors": "c", "R": 1, "T": 1, "sibling": "dict"}, {"collectors": "c", "R": 1, "T": 1, "sibling": "plist"}],
           labels=("three_runs", "completes_before_limit", "limit_before_completion"), timeout=1200, encoded=enc),
         X("parallel_any_order", parallel_any_order,
           parts=[{"na": a, "nb": b, "reps": r, "procs": p} for (a, b, r) in shapes for p in (2,)] + [{"na": 2, "nb": 1, "reps": 1, "procs": 16}],
